@@ -387,7 +387,8 @@ def wire(ctx: Ctx, rule="R-C07-WIRE") -> None:
     # ---------- in-memory: the message object itself
     f = ctx.func(f"{C.INMEM_BROKER}._put_in_queue") if f"{C.INMEM_BROKER}._put_in_queue" in ctx.prog.functions else ctx.func(f"{C.INMEM_BROKER}.enqueue")
     mk = [c for c in ast.walk(f.node) if isinstance(c, ast.Call) and dotted(c.func) == "Message"]
-    ok = len(mk) == 1 and [unparse(a) for a in mk[0].args[:2]] == ["key", "payload"] and unparse(mk[0].args[2]).startswith("params")
+    margs = [C.arg(mk[0], i, nm) for i, nm in enumerate(("key", "payload", "parameters"))] if len(mk) == 1 else []
+    ok = len(mk) == 1 and all(a is not None for a in margs) and [unparse(a) for a in margs[:2]] == ["key", "payload"] and unparse(margs[2]).startswith("params")
     ctx.check(ok, rule, f, "in-memory message = (key, payload, params)", "Message(key, payload, params or default)", f"in-memory broker stores {unparse(mk[0]) if mk else '?'}", instance="in-memory message")
     c = ctx.func(f"{C.INMEM_CONS}.consume")
     rets = [r for r in ast.walk(c.node) if isinstance(r, ast.Return) and r.value is not None]
